@@ -3,9 +3,34 @@
 STD_ASSUME = ["the Lean model is tied to /repo by the T1 extractor and the T2 correspondence run of this check; "
               "agreement outside the explored inputs rests on the model being a line-by-line transcription"]
 
-HOOK_COMMITS = []
+HOOK_COMMITS = ["9665c83 verif hooks: yield points in the sse delivery goroutine and handler exit path"]
 
 PROPS = {
+    "C19": {
+        "claimed": True,
+        "model_modules": ["TemplVerif.Model.Sse"],
+        "proof_modules": ["TemplVerif.Proofs.Sse"],
+        "level_text": "Lean 4 theorems about a transition-system model of sse.Handler (subscribe, broadcast, per-client delivery goroutines, "
+                      "cancel, exit): for EVERY schedule no step panics and the broadcaster is never blocked (C19_safe), every event broadcast "
+                      "while a client was registered is received by it or still pending unless the client was cancelled (C19_delivery), and "
+                      "delivery goroutines of departed clients can always finish (C19_no_leak). The model's two wiring parameters (handler closes "
+                      "the channel on exit; delivery selects on done) are regenerated from sse/server.go on every run and pinned (decide). The "
+                      "real handler is driven through the same schedules with FORCED interleavings (verif-tag yield hooks) - every schedule up to "
+                      "length 6 (8 thorough) over 2 clients and 2 broadcasts, plus random longer ones - and its panics, stuck goroutines and "
+                      "per-client event logs are compared with the model.",
+        "level_note": "Partial: the theorems quantify over all interleavings of the MODELLED atomic steps; that the code's steps are these (lock "
+                      "scopes, unbuffered channel semantics, select fairness) is tied by hook-forced schedules, not proved; eventual delivery needs "
+                      "scheduler fairness; slow readers are modelled as delayed deliver steps; the HTTP layer under ServeHTTP is a recording ResponseWriter.",
+        "rule": "all schedules of enabled actions (subscribe, broadcast, deliver, drop, cancel, exit) of length <= 6 (quick) / 8 (thorough) with <= 2 "
+                "clients and <= 2 broadcasts, each completed by settle + snapshot + drain; hand-written churn schedules incl. the witness of the "
+                "repaired defect; random schedules with up to 5 clients and 20 steps. Non-trivial = contains a broadcast and a cancel.",
+        "exhaustive": True,
+        "proved": ["C19_safe", "C19_delivery", "C19_no_leak", "C19_wiring_pinned (T1)", "C19_unrepaired_counterexample"],
+        "monitored": ["model = real sse.Handler under hook-forced schedules: panic, stuck goroutines, per-client logs"],
+        "partial": ["real scheduling / memory model; fairness"],
+        "trusted_base": ["Go channel and mutex semantics as modelled", "verif hooks in sse/server.go (yield points only)"],
+        "assumptions": STD_ASSUME,
+    },
     "C20": {
         "claimed": True,
         "model_modules": ["TemplVerif.Model.Proxy"],
@@ -34,9 +59,10 @@ PROPS = {
         "assumptions": STD_ASSUME,
     },
     "C05": {
-        "claimed": False, "na_reason": "proofs in progress (model, correspondence, T1 pins done; C05_main being proved)",
+        "claimed": True,
         "model_modules": ["TemplVerif.Model.Css", "TemplVerif.Spec.CssScan"],
         "proof_modules": ["TemplVerif.Proofs.Css"],
+        "search_rounds": 1,
         "thorough_shards": 12,
         "level_text": "Lean 4 theorem C05_main proves for EVERY (property, value) pair of byte strings, and for every behaviour of net/url.Parse "
                       "(a parameter), that the pair returned by the model of safehtml.SanitizeCSS is safely ONE declaration under a CSS Syntax 3 "
